@@ -143,24 +143,48 @@ def check_case(case, res: Result):
         for ev in log:
             per.setdefault(ev[3], []).append(ev)
         race = _raced_with_stop(CR.REQS, kind)
+        # same-tick bursts of mutually conflicting requests (the C11 mechanism): the older request re-creates its instance
+        alive: set = set()
+        alive_at: dict[int, set] = {}
+        cur = None
+        for ev in log:
+            if ev[0] != cur:
+                cur = ev[0]
+                alive_at[cur] = set(alive)
+            if ev[1] == "init":
+                alive.add(ev[3])
+            elif ev[1] == "fin":
+                alive.discard(ev[3])
+        name_of = {iid: evs[0][2] for iid, evs in per.items()}
+        bursts = CR.burst_tainted(list(CR.REQS), alive_at, name_of, _conflicts, UOD_NAMES)
+        tainted = set().union(*bursts.values()) if bursts else set()
+        ent = next((x for x in sl.stops if x["run_id"] == run1), None)
+        misbooked = CR.misbooked_conclusions(ent["records"]) if ent is not None else set()
+
+        def mech_for(iids, default):
+            if iids and all(i in race for i in iids):
+                return "C10.command_requested_in_tick_of_stop_survives_stop"
+            if iids and all(i in race or i in tainted for i in iids):
+                return "C10.conflicting_requests_in_one_tick"
+            return default
+
         if inst:
             ids = [c.instance_id for c in rig.uod.command_instances.values()]
-            mech = "C10.command_requested_in_tick_of_stop_survives_stop" if all(i in race for i in ids) else \
-                "C10.uod_instance_held_after_stop"
-            viol.append((mech, f"{kind} completed at tick {s} but uod.command_instances still holds {inst}"))
-        for iid, evs in per.items():
-            if evs[0][1] == "init" and not any(e[1] == "fin" for e in evs):
-                mech = "C10.command_requested_in_tick_of_stop_survives_stop" if iid in race else \
-                    "C10.instance_not_finalized_at_stop"
-                viol.append((mech, f"{kind} completed at tick {s} but instance {iid[:8]} of {evs[0][2]} (init tick "
-                             f"{evs[0][0]}, last callback {evs[-1][1]} at tick {evs[-1][0]}) was never finalized"))
+            viol.append((mech_for(ids, "C10.uod_instance_held_after_stop"),
+                         f"{kind} completed at tick {s} but uod.command_instances still holds {inst}"))
+        for iid in sorted(alive):
+            evs = per[iid]
+            if True:
+                viol.append((mech_for([iid], "C10.instance_not_finalized_at_stop"),
+                             f"{kind} completed at tick {s} but instance {iid[:8]} of {evs[0][2]} (init tick "
+                             f"{evs[0][0]}, last callback {evs[-1][1]} at tick {evs[-1][0]}) is not finalized"))
         # run-stopped message
-        ent = next((x for x in sl.stops if x["run_id"] == run1), None)
         if ent is None:
             viol.append(("C10.no_on_stop_event", f"{kind} completed at tick {s} but no on_stop event carried run id {run1}"))
         elif ent["msg"] is None:
-            viol.append(("C10.run_stopped_message_cannot_be_built",
-                         f"create_run_stopped_msg raised inside on_stop (tick {ent['tick']}): {ent['exc']}"))
+            suffix, desc = CR.classify_records(ent["records"])
+            viol.append(("C10.final_runlog_unproducible_" + suffix if suffix else "C10.run_stopped_message_cannot_be_built",
+                         f"create_run_stopped_msg raised inside on_stop (tick {ent['tick']}): {ent['exc']}; {desc}"))
         else:
             lines = {ln.id: ln for ln in ent["msg"].runlog.lines}
             for iid, evs in per.items():
@@ -169,23 +193,24 @@ def check_case(case, res: Result):
                 res.count("final_runlog_uod_lines")
                 ln = lines.get(iid)
                 if ln is None:
-                    viol.append(("C10.executed_uod_command_missing_in_final_runlog",
+                    viol.append((mech_for([iid], "C10.executed_uod_command_missing_in_final_runlog"),
                                  f"instance {iid[:8]} of {evs[0][2]} (init tick {evs[0][0]}) has no line in the run-stopped "
                                  f"message"))
                 elif ln.end is None:
-                    mech = "C10.command_requested_in_tick_of_stop_survives_stop" if iid in race else \
-                        "C10.uod_command_not_conclusive_in_final_runlog"
-                    viol.append((mech, f"line {ln.command_name!r} ({iid[:8]}, init tick {evs[0][0]}) of the run-stopped "
-                                 f"message has no end: cancelled={ln.cancelled} failed={ln.failed}"))
+                    mech = "C10.conclusion_recorded_on_newer_instance_of_same_line" if iid in misbooked else \
+                        mech_for([iid], "C10.uod_command_not_conclusive_in_final_runlog")
+                    viol.append((mech, f"line {ln.command_name!r} ({iid[:8]}, init tick {evs[0][0]}, finalized="
+                                 f"{any(e[1] == 'fin' for e in evs)}) of the run-stopped message has no end: "
+                                 f"cancelled={ln.cancelled} failed={ln.failed}"))
             for ln in ent["msg"].runlog.lines:
                 if ln.id in per or ln.command_name.split(":")[0] not in UOD_NAMES:
                     continue
                 res.count("final_runlog_uod_lines_never_initialised")
                 if ln.end is None:
-                    mech = "C10.command_requested_in_tick_of_stop_survives_stop" if ln.id in race else \
-                        "C10.requested_uod_command_left_started_in_final_runlog"
-                    viol.append((mech, f"line {ln.command_name!r} ({ln.id[:8]}) of the run-stopped message is shown as "
-                                 f"started without end although the run has ended (its command was never initialised)"))
+                    # the interpreter had just visited the line (run-log item created) when the Stop arrived; the
+                    # command itself was never requested/initialised. Whether such a line counts as a "UOD command
+                    # started in the run" is ambiguous -> counted, not judged.
+                    res.count("unjudged_visited_but_never_requested_uod_line_left_open")
         sim = sorted(t.name for t in rig.e.tags if t.simulated)
         if sim:
             viol.append(("C10.simulation_survives_stop", f"{kind} completed at tick {s} but tags {sim} are still simulated"))
@@ -220,9 +245,7 @@ def check_case(case, res: Result):
             rig.tick(3)
             late = [e for e in rig.cmdlog[n_log:] if e[1] == "exec"]
             if late:
-                mech = "C10.command_requested_in_tick_of_stop_survives_stop" if all(e[3] in race for e in late) else \
-                    "C10.command_executes_after_stop"
-                viol.append((mech, f"UOD command {late[0][2]} ({late[0][3][:8]}) executes at tick {late[0][0]} after the Stop "
+                viol.append((mech_for([e[3] for e in late], "C10.command_executes_after_stop"), f"UOD command {late[0][2]} ({late[0][3][:8]}) executes at tick {late[0][0]} after the Stop "
                              f"completed at tick {s}"))
         res.case((shape_hash(case["text"]), kind, at) if nontrivial else None,
                  sample={"method": case["text"], "kind": kind, "at": at, "stopped_tick": s, "live_at_request": pre["live"]})
@@ -245,6 +268,10 @@ def _pre_state(rig):
             alive.remove(ev[3])
     return {"live": len(alive), "simulated": any(t.simulated for t in rig.e.tags),
             "paused": rig.e._runstate_paused, "holding": rig.e._runstate_holding}
+
+
+def _conflicts(a: str, b: str) -> bool:
+    return a == b or (a in ("Long", "Long2") and b in ("Long", "Long2"))
 
 
 def _raced_with_stop(reqs, kind) -> set:
